@@ -116,6 +116,10 @@ func (v verificationMethodValidator) verifyThumbprint(method *did.VerificationMe
 	if err != nil {
 		return fmt.Errorf("unable to get JWK: %w", err)
 	}
+	if keyAsJWK == nil {
+		// JWK() returns nil without an error when the method has no publicKeyJwk
+		return errors.New("unable to get JWK: missing publicKeyJwk")
+	}
 	// AssignKeyID keeps a kid member that is already present in the JWK, the thumbprint must be calculated
 	_ = keyAsJWK.Remove(jwk.KeyIDKey)
 	_ = jwk.AssignKeyID(keyAsJWK)
